@@ -22,10 +22,10 @@ InDomain(in, obs) ==
   /\ Supported(Norm(in.ast), in.syn)
   /\ in.pattern = Concrete(Norm(in.ast), in.syn)
 
-Expected(in) == LET e == Norm(in.ast) p == PathsOf(in) IN
+Expected(in) == LET e == WithSyntax(Norm(in.ast), in.syn) p == PathsOf(in) IN
                 SelectSeq([k \in DOMAIN p |-> k], LAMBDA k : InLang(e, p[k], in.icase))
 
-ExpectedWith(in, ic) == LET e == Norm(in.ast) p == PathsOf(in) IN
+ExpectedWith(in, ic) == LET e == WithSyntax(Norm(in.ast), in.syn) p == PathsOf(in) IN
                        SelectSeq([k \in DOMAIN p |-> k], LAMBDA k : InLang(e, p[k], ic))
 \* -regex P and -iregex P side by side in one expression: each with its own letter-case rule
 BothOK(in, obs) == "m1" \in DOMAIN obs => obs.m1 = ExpectedWith(in, in.icase) /\ obs.m2 = ExpectedWith(in, ~in.icase)
